@@ -146,9 +146,7 @@ Close Scope string_scope.
    [due a T] is the instant at which an await entered at [a] under the timeout T is given up. *)
 Theorem C16_due_spec : forall a T,
   (0 < T -> due a T = a + T) /\ (T <= 0 -> due a T = a) /\ a <= due a T /\ (0 <= T -> due a T <= a + T).
-Proof.
-  intros a T. split; [apply due_pos|]. split; [apply due_nonpos|]. split; [apply due_ge|apply due_le].
-Qed.
+Proof. exact due_spec. Qed.
 Print Assumptions C16_due_spec.
 
 (* B0. every await is governed by exactly the configured value: None stays None, 0 stays 0 *)
